@@ -302,6 +302,19 @@ def check_split_run(ctx):
                     isinstance(v, ast.Call) and v.args and A.src(v.args[0]) == orig):
                 bufs.add(s.targets[0].id)
                 assigns.append(s)
+    if len(bufs) > 1:
+        # a copy of the block kept in a second local and handed to the branches from there: the copy is made once per
+        # block (or lazily, the first time it is needed) and every non-last branch receives the same object
+        direct = {s2.targets[0].id for s2 in assigns if isinstance(s2.value, ast.Name)}
+        memo = {s2.targets[0].id for s2 in assigns if isinstance(s2.value, ast.Call)} - direct
+        via = [s2 for s2 in A.walk_local(inner) if isinstance(s2, ast.Assign) and len(s2.targets) == 1 and isinstance(s2.targets[0], ast.Name)
+               and s2.targets[0].id in direct and isinstance(s2.value, ast.Name) and s2.value.id in memo]
+        if len(direct) == 1 and via:
+            ctx.violation("C04-b", via[0], "Split.run hands the branches `%s`, a copy of the block that is kept in `%s` across the branch loop: "
+                          "all branches but the last one receive one and the same copy, so an in-place change made by one branch (a "
+                          "Variable, an UpdateContext) is seen by the next" % (via[0].targets[0].id, via[0].value.id),
+                          construct="shared-memo-copy")
+            return
     if not ctx.require(len(bufs) == 1 and assigns, "C04-b", inner,
                        "Split.run: per-branch buffer assignment from %s not found" % orig):
         return
@@ -416,6 +429,7 @@ def check(ctx):
 
 
 VARIANTS = [
+    M("split-run-memo-copy", "lena/core/split.py", "            ind = 0\n            while ind < n_of_active_seqs:\n                if self._copy_buf and n_of_active_seqs - ind > 1:\n                    # last sequence doesn't need a copy of the buffer\n                    buf = copy.deepcopy(orig_buf)", "            ind = 0\n            buf_copy = None\n            while ind < n_of_active_seqs:\n                if self._copy_buf and n_of_active_seqs - ind > 1:\n                    if buf_copy is None:\n                        buf_copy = copy.deepcopy(orig_buf)\n                    buf = buf_copy", ["C04-b"]),
     M("sum-no-copy", "lena/math/elements.py", "yield (self._total, copy.deepcopy(self._cur_context))",
       "yield (self._total, self._cur_context)", ["C04-a"], nth=1),
     M("dsum-shallow", "lena/math/elements.py", "yield (self._total, copy.deepcopy(self._cur_context))",
